@@ -483,3 +483,40 @@ def jobs():
         return max(2, min(12, int(os.environ.get("VERIF_JOBS", "0")) or (os.cpu_count() or 4) - 4))
     except ValueError:
         return 8
+
+
+def generic_replay(path, build, driver):
+    """./check --replay for line-protocol domains: the recorded request lines (every line that is not a comment, up to the first
+    `--- ` separator, a trailing `    => reply` stripped) are fed to the implementation built from the current tree and to the
+    model driver; exit 1 if the implementation aborts or the two differ."""
+    ops = []
+    for l in open(path, errors="replace"):
+        l = l.rstrip("\n")
+        if l.startswith("--- "):
+            break
+        if l.strip() and not l.startswith("#"):
+            ops.append(l.split("    => ")[0])
+    if not ops:
+        print(open(path, errors="replace").read())
+        print("(no recorded input in this replay file: it names the proof obligation / correspondence that no longer checks)")
+        return 1
+    lake_build([driver])
+    drv = driver_path(driver)
+    exe, blog = build()
+    if exe is None or not os.path.exists(drv):
+        print(blog)
+        return 1
+    io, rc, err = run_lines(exe, ops, timeout=600)
+    mo, mrc, merr = run_lines(drv, ops, timeout=600)
+    for i, o in enumerate(ops):
+        print("%s\n    impl : %s\n    model: %s" % (o[:300], io[i][:300] if i < len(io) else "<no reply>", mo[i][:300] if i < len(mo) else "<no reply>"))
+    bad = 0
+    if rc != 0 or len(io) != len(ops):
+        bad = 1
+        print("implementation aborted (rc=%s) after %d of %d replies\n%s" % (rc, len(io), len(ops), err[-3000:]))
+    d = first_divergence(io, mo)
+    if d is not None:
+        bad = 1
+        print("DIVERGENCE between implementation and model at line %d" % d)
+    print("replay: %s" % ("FAILS" if bad else "passes on the current tree (implementation and model agree, no abort)"))
+    return bad
